@@ -73,6 +73,22 @@ def replay(recs):
             chk("Conic.from_points", st, case, r["M"], lambda: g.Conic.from_points(*pts), lambda c: mcls(c, r["M"]) and all(bool(c.contains(p)) for p in pts))
             scaled = [P(np.array(p) * f) for p, f in zip(r["pts"], [2, -1, 3, 0.5, -2])]
             chk("Conic.from_points/scaled-representatives", st, case, r["M"], lambda: g.Conic.from_points(*scaled), lambda c: mcls(c, r["M"]))
+            # the same five points far out on the integer lattice (dilated and shifted by an exact integer affine map, integer
+            # dtype throughout): the conic is the image conic T^-T M T^-1
+            for K, sh in ((90, (7, -4)), (400, (-150, 230))):
+                T = np.array([[K, 0, sh[0]], [0, K, sh[1]], [0, 0, 1]], dtype=np.int64)
+                Ta = np.array([[1, 0, -sh[0]], [0, 1, -sh[1]], [0, 0, K]], dtype=np.int64)          # K * T^-1
+                big = [(T @ np.array(p, dtype=np.int64)) for p in r["pts"]]
+                Mb = (Ta.T.astype(object) @ np.array(r["M"], dtype=object) @ Ta.astype(object))
+                Mb = (Mb / max(abs(int(x)) for x in Mb.reshape(-1))).astype(float).tolist()
+
+                def big_ok(c, big=big, Mb=Mb):
+                    A = np.asarray(c.array, dtype=float)
+                    if not np.all(np.isfinite(A)) or not mcls(c, Mb):
+                        return False
+                    return all(abs(b @ A @ b) <= 1e-9 * np.abs(A).max() * float(b @ b) for b in (np.array(x, dtype=float) for x in big))
+                chk(f"Conic.from_points/integer-lattice-times-{K}", st, {"pts": [b.tolist() for b in big]}, Mb,
+                    lambda big=big: g.Conic.from_points(*[g.Point(b) for b in big]), big_ok)
             if r["cr"][1] != 0:
                 cr = r["cr"][0] / r["cr"][1]
                 chk("Conic.from_crossratio", st, {**case, "cr": r["cr"]}, r["M"], lambda: g.Conic.from_crossratio(cr, *pts[:4]), lambda c: mcls(c, r["M"]))
